@@ -3,7 +3,7 @@ import random
 
 from exv.core import Report, run_cases
 from exv.scen import flushvec_of
-from exv.sysscen import child, gen_script, gen_race_script
+from exv.sysscen import child, gen_script, gen_race_script, gen_lag_script, gen_unconfirm_script
 
 PID = 'C07'
 
@@ -23,6 +23,22 @@ def gen_cases(tier, seed, judge=('C07',), n=None, queries=False, longpark_in_qui
                       'latency': rng.choice((None, (0, 0.1, 1), (0, 0.1, 1, 3, 6))), 'txindex': i % 2 == 0,
                       'prefetch': rng.choice((1, 2, 100)), 'n0': rng.choice((10, 14, 20)), 'sample': i < 2, 'colls': rng.choice((0, 1)),
                       'longpark': (0.25 if i % 5 == 3 else None) if tier == 'thorough' or longpark_in_quick else None})
+    if 'C07' in judge or 'C10' in judge:
+        # the mempool refresh lags behind the block processor (slow raw-tx fetches) while blocks touch subscribed scripts
+        for j in range(20 if tier == 'quick' else 300):
+            nclients, nscripts = 2, rng.randrange(4, 8)
+            cases.append({'seed': rng.randrange(1 << 30), 'nclients': nclients, 'nscripts': nscripts, 'judge': list(judge),
+                          'script': gen_lag_script(rng, nclients, nscripts), 'flushkind': 'none', 'flushvec': None,
+                          'policy': rng.choice(('random', 'lazy', 'eager')), 'p': 0.3, 'latency': None,
+                          'latency_by_method': {'getrawtransaction': (7, 9, 14), 'getrawmempool': (0, 3)}, 'txindex': j % 2 == 0,
+                          'prefetch': 100, 'n0': rng.choice((10, 16)), 'colls': 0, 'reorg_limit': 5})
+    if 'C07' in judge or 'C10' in judge:
+        for j in range(12 if tier == 'quick' else 150):
+            nclients, nscripts = 2, 8
+            cases.append({'seed': rng.randrange(1 << 30), 'nclients': nclients, 'nscripts': nscripts, 'judge': list(judge),
+                          'script': gen_unconfirm_script(rng, nclients, nscripts), 'flushkind': 'none', 'flushvec': None,
+                          'policy': rng.choice(('random', 'lazy', 'eager')), 'p': 0.3, 'latency': None, 'txindex': j % 2 == 0,
+                          'prefetch': 100, 'n0': rng.choice((10, 16)), 'colls': 0, 'reorg_limit': 5})
     if 'C10' in judge or 'C11' in judge:
         # reads in flight while blocks are undone: queries right before a chain change, read jobs held at their end
         for j in range(24 if tier == 'quick' else 300):
